@@ -222,7 +222,21 @@ func (e *Engine) invokeUnknown(f *frame, st *State, cc *ssa.CallCommon, recv Val
 	ms := e.W.invokeModSet(cc.Value.Type(), cc.Method)
 	e.note("interface method " + key + " without contract: results unconstrained, mod-set of all implementers havocked")
 	e.havocFamilies(st, ms.list())
-	return e.havocResult(st, cc.Method.Name(), rt)
+	res := e.havocResult(st, cc.Method.Name(), rt)
+	if e.Share != nil && (strings.HasPrefix(key, "datacodec.extractor.") || strings.HasPrefix(key, "datacodec.keyValueExtractor.")) {
+		// elements and keys an extractor hands out are parts of the caller's source value (the extractor is a view of
+		// it built for this call): caller-owned
+		if tup, ok := rt.(*types.Tuple); ok {
+			for k := 0; k < tup.Len(); k++ {
+				off, n := e.tupleRange(tup, k)
+				e.ownAssume(Val{Typ: tup.At(k).Type(), Terms: res.Terms[off : off+n]})
+			}
+		} else {
+			e.ownAssume(res)
+		}
+		e.note("ASSUMED (C18): what an extractor returns belongs to the caller's source value")
+	}
+	return res
 }
 
 func (e *Engine) staticCall(f *frame, st *State, fn *ssa.Function, args []Val, binds []Val, rt types.Type, pos string, cc *ssa.CallCommon) Val {
